@@ -29,13 +29,15 @@ pub struct Graph {
     pub missing_in: Option<usize>,
     /// file that lives only in the INCLUDE_DIR directory
     pub incdir_file: Option<usize>,
+    /// file that writes its first include statement a second time (a multi-edge)
+    pub repeat_in: Option<usize>,
 }
 
 impl Graph {
     fn to_json(&self) -> Value {
         json!({
             "n": self.n, "edges": self.edges, "root": self.root, "class_first": self.class_first,
-            "missing_in": self.missing_in, "incdir_file": self.incdir_file, "witness": self.witness(),
+            "missing_in": self.missing_in, "incdir_file": self.incdir_file, "repeat_in": self.repeat_in, "witness": self.witness(),
         })
     }
 
@@ -47,6 +49,7 @@ impl Graph {
             class_first: v["class_first"].as_bool().unwrap_or(false),
             missing_in: v["missing_in"].as_u64().map(|x| x as usize),
             incdir_file: v["incdir_file"].as_u64().map(|x| x as usize),
+            repeat_in: v["repeat_in"].as_u64().map(|x| x as usize),
         }
     }
 
@@ -60,6 +63,9 @@ impl Graph {
             }
             if self.incdir_file == Some(i) {
                 s.push_str("@incdir");
+            }
+            if self.repeat_in == Some(i) {
+                s.push_str("+first-include-repeated");
             }
             parts.push(s);
         }
@@ -86,6 +92,11 @@ impl Graph {
             text.push_str(&format!("class C{i};\n"));
         }
         let mut names: Vec<String> = (0..self.n).filter(|j| self.edges[i] >> j & 1 == 1).map(|j| format!("f{j}.td")).collect();
+        if self.repeat_in == Some(i) {
+            if let Some(first) = names.first().cloned() {
+                names.push(first);
+            }
+        }
         if self.missing_in == Some(i) {
             names.push("missing.td".to_string());
         }
@@ -116,11 +127,14 @@ impl Graph {
         if self.incdir_file.is_some() {
             out.push(Graph { incdir_file: None, ..self.clone() });
         }
+        if self.repeat_in.is_some() {
+            out.push(Graph { repeat_in: None, ..self.clone() });
+        }
         if self.class_first {
             out.push(Graph { class_first: false, ..self.clone() });
         }
         // drop the last file when nothing refers to it
-        if self.n > 1 && self.root != self.n - 1 && self.missing_in != Some(self.n - 1) && self.incdir_file != Some(self.n - 1) {
+        if self.n > 1 && self.root != self.n - 1 && self.missing_in != Some(self.n - 1) && self.incdir_file != Some(self.n - 1) && self.repeat_in != Some(self.n - 1) {
             let mask = !(1u32 << (self.n - 1));
             let mut g = self.clone();
             g.n -= 1;
@@ -214,6 +228,14 @@ pub fn eval_graph(g: &Graph) -> Vec<Failure> {
             // not-found diagnostics on unresolvable statements
             let file_diags = diags.get(&fid).cloned().unwrap_or_default();
             for (stmt, _, name) in &incs {
+                if resolve(&existing, g.dir_of(i), name, incdir).is_some() {
+                    if let Some(d) = file_diags.iter().find(|d| {
+                        let (s, e) = (usize::from(d.location.range.start()), usize::from(d.location.range.end()));
+                        s < stmt.1 && e > stmt.0 && d.message.contains("not found")
+                    }) {
+                        problems.push(("resolvable-include-reported", format!("{path}: include \"{name}\" at {stmt:?} resolves but is reported: {:?}", d.message)));
+                    }
+                }
                 if resolve(&existing, g.dir_of(i), name, incdir).is_none() {
                     let hit = file_diags.iter().any(|d| {
                         let (s, e) = (usize::from(d.location.range.start()), usize::from(d.location.range.end()));
@@ -279,7 +301,7 @@ fn for_each_graph(tier: Tier, ctx: &mut Ctx, mut f: impl FnMut(&mut Ctx, &Graph)
             for root in 0..n {
                 let layouts: &[bool] = if n <= 3 { &[false, true] } else { &[false] };
                 for &class_first in layouts {
-                    let base = Graph { n, edges: edges.clone(), root, class_first, missing_in: None, incdir_file: None };
+                    let base = Graph { n, edges: edges.clone(), root, class_first, missing_in: None, incdir_file: None, repeat_in: None };
                     if !f(ctx, &base) {
                         return;
                     }
@@ -289,6 +311,9 @@ fn for_each_graph(tier: Tier, ctx: &mut Ctx, mut f: impl FnMut(&mut Ctx, &Graph)
                                 return;
                             }
                             if v != root && !f(ctx, &Graph { incdir_file: Some(v), ..base.clone() }) {
+                                return;
+                            }
+                            if edges[v] != 0 && !f(ctx, &Graph { repeat_in: Some(v), ..base.clone() }) {
                                 return;
                             }
                         }
@@ -307,7 +332,7 @@ impl Engine for C16 {
     fn rule(&self, tier: Tier) -> String {
         format!(
             "every directed graph with self-loops on n files x every root: all edge sets for n <= 4 (n <= 3: both declaration orders), n = 5 with out-degree <= {}; \
-             for n <= 3 additionally one file including a missing target and one non-root file present only under INCLUDE_DIR. \
+             for n <= 3 additionally one file including a missing target, one non-root file present only under INCLUDE_DIR, and one file writing its first include statement twice (a multi-edge). \
              non-trivial = the graph has a cycle, a diamond or an unresolvable include; graphs are distinct by construction.",
             tier.pick(1, 2)
         )
